@@ -146,10 +146,26 @@ def run_suite(suite, tier, seed):
                         ver.append(("solvePDE: residual of the model system at the solver's answer", f"check_solution {mn} b{ncase} {tcoq} x{ncase}"))
                         ver.append(("solvePDE: stored values = solved interior + recomputed boundary values", f"check_ghosts {mn} b{ncase} x{ncase} {ql(ret._value)}"))
                         ver.append(("solvePDE returns its argument", "true" if ret is phi else "false"))
+                        # a second step on the SAME variable object: same dt, different alpha (stateful caches would show here)
+                        if k % 2 == 0:
+                            old2 = np.array(ret._value, dtype=float)
+                            a2_in = np.abs(gen.cell_array(rng, mesh))[tuple(slice(1, -1) for _ in range(d))] + 0.75
+                            D2a = gen.face_arrays(rng, mesh, lo=0.0, hi=2.0, p0=0.1)
+                            t2 = [pf.transientTerm(ret, dt, pf.CellVariable(mesh, a2_in)), -pf.diffusionTerm(pf.FaceVariable(mesh, *D2a))]
+                            spy2 = {}
+                            def solver2(M, RHS):
+                                spy2["x"] = spsolve(M, RHS); return spy2["x"]
+                            pf.solvePDE(ret, t2, externalsolver=solver2)
+                            x2 = np.array(spy2["x"], dtype=float).reshape(old_full.shape)
+                            if np.all(np.isfinite(x2)) and np.max(np.abs(x2)) < 1e6:
+                                defs += cv(f"old2_{ncase}", mn, old2) + cv(f"al2_{ncase}", mn, pad(mesh, a2_in)) + fv(f"D2_{ncase}", mn, D2a) + cv(f"x2_{ncase}", mn, x2)
+                                ver.append(("solvePDE: second step on the same variable (same dt, new alpha)",
+                                            f"check_solution {mn} b{ncase} [TTrans QcOps al2_{ncase} {lib.q_of(dt)} old2_{ncase}; TDiff QcOps {lib.q_of(-1.0)} D2_{ncase}] x2_{ncase}"))
                         # the default solver gives the same values
                         phi2 = pf.CellVariable(mesh, inner, BC)
+                        first_val = np.array(x)
                         pf.solvePDE(phi2, terms)
-                        ver.append(("solvePDE default solver = spied external solver", "true" if np.allclose(phi2._value, ret._value, rtol=1e-9, atol=1e-12) else "false"))
+                        ver.append(("solvePDE default solver = spied external solver", "true" if np.allclose(np.asarray(phi2._value)[tuple(slice(1, -1) for _ in range(d))], first_val[tuple(slice(1, -1) for _ in range(d))], rtol=1e-9, atol=1e-12) else "false"))
                     else:
                         a = gen.face_arrays(rng, mesh, lo=0.0, hi=2.0)
                         D = pf.FaceVariable(mesh, *a)
